@@ -77,10 +77,31 @@ class Ctx:
         self.count("static_context_mirrored_calls")
         self.check(r2.t == r.t and r2.ill == 0 and r2.err == 0, "%s:static_context_mirror:%s" % (op, "illegal_callback" if r2.ill else "reply_differs"),
                    "full context: %s | static copy: %s ill=%d" % (" ".join(r.t)[:200], " ".join(r2.t)[:200], r2.ill), config)
+    def _mirror_alt(self, s, op, args, config, r):
+        """results depend only on arguments: the same call on a second context (created separately, randomized, with a replaced but
+        correct SHA-256 compression function) must give the identical reply"""
+        key = (config, s.nstarts)
+        if getattr(self, "_alt_key", None) != key:
+            try:
+                sc = s.call("ctx_create", 1); slot = int(sc.t[0])
+                s.call("ctx_set_compress", 1, ctx=slot); s.call("ctx_randomize", hashlib.sha256(b"alt" + str(self.seed).encode()).digest(), ctx=slot)
+            except (ShimCrash, ValueError, IndexError): return
+            self._alt_key = key; self._alt_slot = slot
+        try: r2 = s.call(op, *args, ctx=self._alt_slot)
+        except ShimCrash as e:
+            self.fail("%s:%s:alt_context_mirror:crash:%s" % (self.prop, op, e.kind), e.report[-3000:], cmds=e.history, config=config); return
+        self.count("alt_context_mirrored_calls")
+        self.check(r2.t == r.t and r2.ill == r.ill and r2.err == r.err, "%s:alt_context_mirror:reply_differs" % op,
+                   "default context: %s | randomized context with replaced SHA-256 compression: %s" % (" ".join(r.t)[:300], " ".join(r2.t)[:300]), config)
     def call(self, op, *args, config="san", ill=0, c=None):
         """returns Result, or None if the shim died (recorded as a violation). ill: 0 = callbacks forbidden,
         1 = illegal callback allowed, 2 = illegal callback required"""
         s = self.sh(config)
+        if c is None and ill == 0 and not op.startswith(("ctx_", "fork_")) and op not in ("selftest", "ill_msg") and self.rng.random() < 0.015:
+            try:
+                r0 = s.call(op, *args, ctx=None)
+                if not r0.ill and not r0.err: self._mirror_alt(s, op, args, config, r0)
+            except ShimCrash: pass
         if c is None and op in self.MIRROR_STATIC and ill == 0 and self.rng.random() < 0.03:
             try:
                 r0 = s.call(op, *args, ctx=None)
